@@ -100,7 +100,7 @@ def make_any(rng: random.Random):
             if rng.random() < 0.25:
                 # still empty (no bins yet on any axis): a document as well
                 dim_ = rng.choice([2, 3])
-        h = physt.h(None, "fixed_width", bin_width=[0.5, 1.0, 2.0][:dim_], adaptive=True, dim=dim_)
+                h = physt.h(None, "fixed_width", bin_width=[0.5, 1.0, 2.0][:dim_], adaptive=True, dim=dim_)
             else:
                 h = physt.h(rows, "fixed_width", bin_width=[0.5, 1.0], adaptive=True, axis_names=["u", "v"])
         else:
